@@ -15,6 +15,7 @@ UNITS = {
     'ser': dict(module='units.ser', rlimit=150, timeout=600),
     'event': dict(module='units.event', rlimit=200, timeout=900),
     'reader': dict(module='units.reader', rlimit=200, timeout=900),
+    'startend': dict(module='units.startend', rlimit=150, timeout=600),
     'hash': dict(module='units.hash', rlimit=50, timeout=300),
     'rollback': dict(module='units.rollback', rlimit=50, timeout=300),
 }
